@@ -251,3 +251,151 @@ pub fn is_subsequence<T: PartialEq>(sub: &[T], full: &[T]) -> bool {
 pub fn timeout_before(r: &ExecResult, idx: usize) -> bool {
     r.log.iter().take(idx.min(r.log.len())).any(|rec| matches!(rec.ev, Ev::TimeoutFired { .. }))
 }
+
+// ---------------------------------------------------------------------------------------------
+// hang classification (C13, C14)
+
+/// Root causes of an end state in which a client (or main) never returned from a call:
+/// follow mutex holders / joined tasks / pool jobs down to the tasks blocked on a channel.
+pub fn hang_roots(r: &ExecResult) -> Vec<&verif_rt::Stuck> {
+    let by_task = |t: u32| r.stuck.iter().find(|s| s.task == t);
+    let mut roots: Vec<&verif_rt::Stuck> = vec![];
+    let mut seen: Vec<u32> = vec![];
+    let mut work: Vec<&verif_rt::Stuck> = r.stuck.iter().filter(|s| s.role != Role::Internal).collect();
+    while let Some(s) = work.pop() {
+        if seen.contains(&s.task) {
+            continue;
+        }
+        seen.push(s.task);
+        match &s.wait {
+            Wait::Mutex(_) => {
+                if let Some(h) = s.holder.and_then(by_task) {
+                    work.push(h);
+                } else {
+                    roots.push(s);
+                }
+            }
+            Wait::Join(t) => {
+                if let Some(h) = by_task(*t) {
+                    work.push(h);
+                } else {
+                    roots.push(s);
+                }
+            }
+            Wait::Pool { pool, .. } => {
+                let prefix = format!("{}_thread_", r.pools[*pool as usize].name);
+                let mut any = false;
+                for j in r.stuck.iter().filter(|x| x.name.starts_with(&prefix)) {
+                    work.push(j);
+                    any = true;
+                }
+                if !any {
+                    roots.push(s);
+                }
+            }
+            _ => roots.push(s),
+        }
+    }
+    roots
+}
+
+/// Finding for executions where a client call never returned or a timeout fired; `None` when
+/// every client returned and no timeout fired (leaked internal threads alone are not reported).
+/// Known root causes get their own signatures:
+///  * hang-iter-dropped-unread (KF-4): blocked `send` on an iterator channel whose consumer is gone
+///  * hang-iter-created-after-stop (KF-6): `next()` on an iterator created after stop()/close()
+pub fn classify_hang(r: &ExecResult) -> Option<Finding> {
+    let clients_stuck = r.stuck.iter().any(|s| s.role != Role::Internal);
+    if !clients_stuck && r.timeouts == 0 {
+        return None;
+    }
+    let sc = first_stop_call(r).min(calls(r, "close").map(|c| c.i).next().unwrap_or(usize::MAX));
+    let mut roots = hang_roots(r);
+    if r.timeouts > 0 {
+        // a timed-out pool join: whatever keeps pool jobs from finishing is a root too
+        for s in r.stuck.iter().filter(|s| s.role == Role::Internal && s.name.contains("_thread_")) {
+            if !roots.iter().any(|x| x.task == s.task) {
+                let mut sub = vec![s];
+                let mut seen = vec![];
+                while let Some(x) = sub.pop() {
+                    if seen.contains(&x.task) {
+                        continue;
+                    }
+                    seen.push(x.task);
+                    match (&x.wait, x.holder) {
+                        (Wait::Mutex(_), Some(h)) => {
+                            if let Some(hs) = r.stuck.iter().find(|y| y.task == h) {
+                                sub.push(hs);
+                            }
+                        }
+                        _ => {
+                            if !roots.iter().any(|y| y.task == x.task) {
+                                roots.push(x);
+                            }
+                        }
+                    }
+                }
+            }
+        }
+    }
+    let mut kf4 = false;
+    let mut kf6 = false;
+    let mut unknown: Vec<String> = vec![];
+    for s in &roots {
+        match &s.wait {
+            Wait::Send(ch) if elem_kind(s.elem) == "iter" && r.chans[*ch as usize].receivers <= 1 => kf4 = true,
+            Wait::Recv(_) if elem_kind(s.elem) == "iter" && s.role == Role::Client => {
+                // the iterator this client is reading was created after stop()/close()?
+                let created = r
+                    .log
+                    .iter()
+                    .enumerate()
+                    .filter(|(_, rec)| rec.task == s.task && matches!(&rec.ev, Ev::Ret { op: "iter", .. }))
+                    .map(|(i, _)| i)
+                    .last();
+                let call = r
+                    .log
+                    .iter()
+                    .enumerate()
+                    .filter(|(_, rec)| rec.task == s.task && matches!(&rec.ev, Ev::Call { op: "iter", .. }))
+                    .map(|(i, _)| i)
+                    .last();
+                match (call, created) {
+                    (Some(_), Some(ret)) if ret > sc => kf6 = true,
+                    _ => unknown.push(format!("{}@{}", role_s(s.role), wait_s(&s.wait, s.elem))),
+                }
+            }
+            _ => unknown.push(format!("{}@{}", role_s(s.role), wait_s(&s.wait, s.elem))),
+        }
+    }
+    let desc = format!(
+        "unfinished: {}; timeouts fired: {}",
+        r.stuck.iter().map(|s| format!("t{} {} {:?} {}", s.task, s.name, s.wait, s.detail)).collect::<Vec<_>>().join("; "),
+        r.timeouts
+    );
+    if !unknown.is_empty() || (!kf4 && !kf6) {
+        unknown.sort();
+        unknown.dedup();
+        return Some(fnd(&format!("deadlock:{}", if unknown.is_empty() { "timeout".to_string() } else { unknown.join(",") }), format!("a client call never returned or stop() timed out — {}", desc)));
+    }
+    let sig = match (kf4, kf6) {
+        (true, true) => "hang-iter-dropped-unread+created-after-stop",
+        (true, false) => "hang-iter-dropped-unread",
+        _ => "hang-iter-created-after-stop",
+    };
+    Some(fnd(sig, desc))
+}
+
+/// like `sanity` but with hang classification instead of the raw stuck signature
+pub fn sanity_classified(r: &ExecResult) -> Vec<Finding> {
+    let mut f = vec![];
+    if let Some(h) = classify_hang(r) {
+        f.push(h);
+    }
+    for rec in &r.log {
+        if let Ev::TaskPanic { msg } = &rec.ev {
+            f.push(fnd("task-panic", format!("task t{} panicked: {}", rec.task, msg)));
+        }
+    }
+    f
+}
